@@ -20,6 +20,10 @@ enum Row {
     /// first fragment of a PDU with another label, then a complete packet with THIS label, then the
     /// end fragment of the other PDU: the case packet is then expected to use re-use
     AfterInterleavedTrain,
+    /// another label delivered, then a complete packet with THIS label refused by the receiver for lack of
+    /// storage, storage provisioned again: the label memories are out of step through no fault of either
+    /// side, so delivery is not demanded, only that nothing is delivered under another label
+    AfterRejectedForStorage,
 }
 
 struct Case<'a> {
@@ -84,6 +88,29 @@ fn run_case(rep: &Report, acc: &mut Acc, c: &Case) {
             }
             steps.push(format!("first fragment(label {}), complete(label {}), end fragment: {} packets fed", other.short(), c.l.short(), fed.len()));
         }
+        Row::AfterRejectedForStorage => {
+            let other = if c.l == L6B { L6A } else { L6B };
+            let mut scratch = [0u8; 32];
+            let n0 = do_encap(&mut enc, &[0x42], 0, 0x0800, other, &mut scratch).len().unwrap_or(0);
+            let held0 = match do_decap(&mut rx, &scratch[..n0]) {
+                DecapOut::Completed { buf, .. } => Some(buf),
+                _ => None,
+            };
+            // drain the receiver: the application keeps the storages for a while
+            let mut held = vec![];
+            while let Ok(b) = rx.new_pdu() {
+                held.push(b);
+            }
+            let n1 = do_encap(&mut enc, &[0x43], 0, 0x0800, c.l, &mut scratch).len().unwrap_or(0);
+            let r = do_decap(&mut rx, &scratch[..n1]);
+            for b in held {
+                let _ = rx.provision_storage(b);
+            }
+            if let Some(b) = held0 {
+                let _ = rx.provision_storage(b.into_boxed_slice());
+            }
+            steps.push(format!("complete(label {}) delivered; complete(label {}) with no free storage -> {}; storages provisioned again", other.short(), c.l.short(), r.class()));
+        }
         Row::AfterOtherThenFailed => {
             let other = if c.l == L6B { L6A } else { L6B };
             let mut scratch = [0u8; 32];
@@ -107,7 +134,7 @@ fn run_case(rep: &Report, acc: &mut Acc, c: &Case) {
     let lw_full = c.l.wire_len();
     let fits_full = 2 + lw_full + c.p <= GSE_LEN_MAX && c.b >= 4 + lw_full + c.p;
     let fits_empty = 2 + c.p <= GSE_LEN_MAX && c.b >= 4 + c.p;
-    let may_sub = (c.row == Row::AfterSame || c.row == Row::AfterInterleavedTrain) && c.l.is_addr();
+    let may_sub = (c.row == Row::AfterSame || c.row == Row::AfterInterleavedTrain || c.row == Row::AfterRejectedForStorage) && c.l.is_addr();
     let rank = (c.p * 100_000 + c.b) as u64;
     let wit = || {
         json!({"prefix": steps, "call":"encap","pdu_len":c.p,"content":c.content_desc,"frag_id":0x33,"pt":c.pt,"label":c.l.short(),"buffer_len":c.b,"row":format!("{:?}",c.row),"storage":c.storage,"result":format!("{:?}",out)})
@@ -156,6 +183,9 @@ fn run_case(rep: &Report, acc: &mut Acc, c: &Case) {
                         rep.violation(&format!("C01|roundtrip|{}|{:?}", cl, c.row), rank, || (format!("encap(pdu_len={}, pt={:#06x}, label={}, buffer={}) -> {:?}; decap of exactly {} bytes (storage {}): {}", c.p, c.pt, c.l.short(), c.b, out, n, c.storage, b), wit()));
                     }
                 }
+                DecapOut::Err { .. } if c.row == Row::AfterRejectedForStorage => {
+                    // the receiver lost the packet that carried the label: failing to resolve is allowed
+                }
                 other => {
                     rep.violation(&format!("C01|roundtrip|not-delivered|{}|{:?}", other.class(), c.row), rank, || (format!("encap(pdu_len={}, pt={:#06x}, label={}, buffer={}) -> {:?}; decap of exactly {} bytes (storage {}) -> {}", c.p, c.pt, c.l.short(), c.b, out, n, c.storage, other.brief()), wit()));
                 }
@@ -195,7 +225,7 @@ pub fn run(tier: Tier) -> i32 {
             return;
         }
         let mut acc = Acc::default();
-        let rows: Vec<Row> = if l.is_addr() { vec![Row::Plain(true), Row::Plain(false), Row::AfterSame, Row::AfterSameOff, Row::AfterOtherThenFailed, Row::AfterInterleavedTrain] } else { vec![Row::Plain(true), Row::Plain(false)] };
+        let rows: Vec<Row> = if l.is_addr() { vec![Row::Plain(true), Row::Plain(false), Row::AfterSame, Row::AfterSameOff, Row::AfterOtherThenFailed, Row::AfterInterleavedTrain, Row::AfterRejectedForStorage] } else { vec![Row::Plain(true), Row::Plain(false)] };
         for (ri, &row) in rows.iter().enumerate() {
             for lw in [l.wire_len(), 0] {
                 let size = 4 + lw + p;
